@@ -2,9 +2,13 @@
    histories it ran against the real single.Sequencer / BatchQueue (badger in-memory under the recording
    datastore) with: what every call returned (error class / contents id), the final "batches" records in
    key order and the recorded datastore writes (keys projected to their sequence number).
-   [mismatches] lists the cases on which the model disagrees. *)
+   [mismatches] lists the cases on which the model disagrees.
+   Hand-out requests carry the byte budget (GetNextBatchRequest.MaxBytes) the harness passed to the real GetNextBatch
+   (Model/QueueBudget.v: the model, like the code, does not look at it).  [key_mismatches] (Model/QueueKeys.v) compares
+   the first 18 bytes of real record keys with the model's key strings for the sequence numbers they were projected to. *)
 From Coq Require Import NArith List Bool.
-From Verif Require Import Model.Queue.
+From Verif Require Import Model.Queue Model.QueueBudget.
+From Verif Require Export Model.QueueKeys.
 Import ListNotations.
 Open Scope N_scope.
 
@@ -36,7 +40,7 @@ Fixpoint list_eqb {A} (e : A -> A -> bool) (a b : list A) : bool :=
 
 Record qcase := {
   qc_max : N;                          (* maxQueueSize of the FIRST process, 0 = unlimited *)
-  qc_hist : list vitem;                (* every restart / crash recovery names the bound of the process it starts *)
+  qc_hist : list bitem;                (* every restart / crash recovery names the bound of the process it starts, every hand-out request its byte budget *)
   qc_outs : list (option out);         (* what the code returned, per item (None for restart / crash) *)
   qc_image : list entry;               (* final records under /batches, in key order: (sequence number of the key, contents id) *)
   qc_log : list wr                     (* recorded datastore writes, in order (keys as sequence numbers) *)
@@ -44,10 +48,10 @@ Record qcase := {
 
 (* 1 = results differ, 2 = final durable image differs, 3 = write log differs *)
 Definition check_case (c : qcase) : list N :=
-  let '(st, outs) := v_run (v_st0 (qc_max c)) (qc_hist c) in
+  let '(st, outs) := b_run (v_st0 (qc_max c)) (qc_hist c) in
   (if list_eqb oout_eqb outs (qc_outs c) then [] else [1]) ++
   (if list_eqb entry_eqb (db (core (vr st))) (qc_image c) then [] else [2]) ++
-  (if list_eqb wr_eqb (v_wlog (v_st0 (qc_max c)) (qc_hist c)) (qc_log c) then [] else [3]).
+  (if list_eqb wr_eqb (b_wlog (qc_max c) (qc_hist c)) (qc_log c) then [] else [3]).
 
 Fixpoint mismatches_from (i : N) (cs : list qcase) : list (N * list N) :=
   match cs with
